@@ -285,7 +285,7 @@ def status_vector(tok):
 
 
 def run(chk):
-    chk.rule = ("objects of 20 classes reached by random operation histories (2-9 steps: mutators interleaved with "
+    chk.rule = ("objects of 34 classes (every class with an ascii_dump / ascii_load pair, stand-alone and inside its owners, incl. degenerate shapes: no rows with a positive dimension, rows with dimension 0, pending rows only, descriptions never computed) reached by random operation histories (2-9 steps: mutators interleaved with "
                 "observers that trigger lazy minimisation / closure / reduction / solving), derived from VERIF_SEED; "
                 "a case is one object with its dump, reload into a fresh and into a used target, follow-up battery and "
                 "up to N single-token mutations; distinct = distinct dump text; non-trivial = the dump differs from the "
@@ -332,7 +332,80 @@ def run(chk):
         shutil.rmtree(work, ignore_errors=True)
 
 
+def status_words_stage(chk, exe, have_model):
+    """Every status word the dump can print, forced into real objects of every class that has a status (private
+    access), dumped and loaded into a default-constructed object, into the blank word, into every single-flag word
+    and into the all-flags word.  The loaded word must be the dumped one, the re-dump identical, and -- the tie of
+    the exhaustive Coq search -- equal to what the model's [status_result] computes for that (target, state)."""
+    rc, out = common.sh([exe, "statusall"], timeout=600)
+    rows = [l.split() for l in out.split("\n") if l.startswith("S ")]
+    if "DONE statusall" not in out or not rows:
+        chk.failure({"site": "Status::ascii_load", "kind": "crash-in-status-word-sweep"}, {"tail": out[-800:], "rc": rc})
+        return
+    nb = {"ph": 9, "grid": 9, "bds": 3, "og": 2, "box": 3}
+    targets = {c: sorted({int(r[3]) for r in rows if r[1] == c}) for c in nb}
+    table = {}
+    if have_model:
+        src = "Require Import PPLV.Codec.Status NArith List.\nImport ListNotations.\nOpen Scope N_scope.\n"
+        for c in nb:
+            src += 'Goal True. idtac "@@@ %s". exact I. Qed.\n' % c
+            src += ("Eval vm_compute in (map (fun p => status_result %s_class (fst p) (snd p)) (list_prod [%s] (states (sc_nbits %s_class)))).\n"
+                    % (c, "; ".join(str(t) for t in targets[c]), c))
+        tmp = os.path.join(common.BUILD, "c15_sw_%d.v" % os.getpid())
+        open(tmp, "w").write(src)
+        rc2, cout = common.sh(["coqc", "-Q", common.COQ, "PPLV", tmp], timeout=900)
+        for q in [tmp[:-2] + e for e in (".v", ".vo", ".vok", ".vos", ".glob")] + [os.path.join(common.BUILD, ".c15_sw_%d.aux" % os.getpid())]:
+            if os.path.exists(q):
+                os.remove(q)
+        if rc2 != 0:
+            chk.broken.append(("coq-status-table", cout[-1500:]))
+        else:
+            parts = re.split(r"@@@ (\w+)\n", cout)
+            for i in range(1, len(parts), 2):
+                c = parts[i]
+                vals = re.findall(r"Some (\d+)|(None)", parts[i + 1].split(":")[0] if False else parts[i + 1])
+                vals = [int(a) if a else None for a, b in vals]
+                keys = [(t, st) for t in targets[c] for st in range(2 ** nb[c])]
+                if len(vals) >= len(keys):
+                    table[c] = dict(zip(keys, vals[:len(keys)]))
+                else:
+                    chk.broken.append(("coq-status-table-parse", "%s: %d values for %d keys" % (c, len(vals), len(keys))))
+    bad_real, bad_model, skipped = defaultdict(list), defaultdict(list), 0
+    for _, c, kind, tw, st, ok, res, same in rows:
+        tw, st, res = int(tw), int(st), int(res)
+        chk.count(1)
+        # a grid word with EMPTY and "dimension kinds meaningful" is rejected by Grid::Status::OK() and cannot be set by
+        # any operation (set_empty assigns the whole word): its dump prints kinds the loader does not read
+        grid_odd = c == "grid" and (st & 1) and (((st & 4) and (st & 16)) or ((st & 2) and (st & 8)))
+        if ok != "1" or res != st or (same != "1" and not grid_odd):
+            bad_real[c].append({"target": kind, "target_word": tw, "state_word": st, "loaded": ok == "1", "result_word": res,
+                                "same_text": same == "1"})
+        if grid_odd and same != "1":
+            skipped += 1
+        if c in table:
+            m = table[c].get((tw, st), "?")
+            if m != (res if ok == "1" else None):
+                bad_model[c].append({"target_word": tw, "state_word": st, "real": res if ok == "1" else None, "model": m})
+    for c, l in bad_real.items():
+        chk.failure({"site": "Status::ascii_load", "kind": "status-word-not-reproduced", "class": c},
+                    {"class": c, "n_pairs": len(l), "first_pairs": l[:10],
+                     "how": "harness/run_codec statusall: status word forced through private access, dump, load, compare",
+                     "theorem": "roundtrip_*_Status / roundtrip_into_any_*_Status_decided"})
+    for c, l in bad_model.items():
+        chk.broken.append(("status-word-model-vs-code:" + c, json.dumps(l[:5])))
+        chk.failure({"site": "Status::ascii_load", "kind": "status-word-differs-from-model", "class": c},
+                    {"class": c, "n_pairs": len(l), "first_pairs": l[:10]})
+    chk.extra["status_word_sweep"] = {"pairs": len(rows), "targets": targets, "not_reproduced": {c: len(l) for c, l in bad_real.items()},
+                                      "differs_from_model": {c: len(l) for c, l in bad_model.items()},
+                                      "grid_words_rejected_by_Status_OK_text_only": skipped,
+                                      "model_table": sorted(table)}
+    chk.log("status-word sweep: %d (class, target, word) triples, %d not reproduced, %d differ from the model"
+            % (len(rows), sum(len(l) for l in bad_real.values()), sum(len(l) for l in bad_model.values())))
+
+
 def _run(chk, exe, judge, wit, work):
+    if not chk.replay:
+        status_words_stage(chk, exe, judge is not None)
     # replay of the Coq status witnesses on the real code
     if wit:
         reps = {}
@@ -378,9 +451,9 @@ def _run(chk, exe, judge, wit, work):
             rp = json.load(open(f))
             plan.append((int(rp["harness_seed"]), int(rp["index"]) + 1, int(rp.get("maxmut", 2)), int(rp["index"])))
         if chk.quick:
-            plan.append((chk.seed, 630, 40, None))
+            plan.append((chk.seed, 1050, 40, None))
         else:
-            plan += [(chk.seed * 100 + k, 3150, 60, None) for k in range(10)]
+            plan += [(chk.seed * 100 + k, 3500, 60, None) for k in range(10)]
 
     hist = defaultdict(Counter)
     stats = Counter()
